@@ -868,11 +868,13 @@ where
             return Ok(zero);
         }
 
-        if x == &one {
+        // Multiplying by the (cached) constant one is free, but only when there is no
+        // multiplying constant to apply.
+        if multiplying_constant.is_none() && x == &one {
             return Ok(y.clone());
         }
 
-        if y == &one {
+        if multiplying_constant.is_none() && y == &one {
             return Ok(x.clone());
         }
 
